@@ -49,13 +49,15 @@ SETS = {
     # complete product
     "full": lambda frame: [(c, o) for c in (False, True) for o in OVERLAPS],
     # scalar with every frame, colour with the dyadic frame
-    "std": lambda frame: [(False, o) for o in OVERLAPS] + ([(True, o) for o in OVERLAPS] if frame == "dyadic" else []),
+    # (+ with the dyadic frame: a base image whose float data came from uint8 data through the public
+    # img_as(float), and one that was used at another origin before it got the frame's origin)
+    "std": lambda frame: [(False, o) for o in OVERLAPS] + ([(True, o) for o in OVERLAPS] + [(k, o) for k in ("converted", "moved") for o in (0, 0.25)] if frame == "dyadic" else []),
     # scalar x {unit, default, nondyadic} x overlap {0, 0.25}; colour x dyadic x overlap {0.1, 0.5}
     "wide": lambda frame: [(True, 0.1), (True, 0.5)] if frame == "dyadic" else [(False, 0.0), (False, 0.25)],
 }
 
 RULE = (
-    "shape (H, W) x patch counts (n0, n1) in 1..6 squared x relative overlap {0, 0.1, 0.25, 0.5} x payload {scalar float64, colour uint16 x3} x frame "
+    "shape (H, W) x patch counts (n0, n1) in 1..6 squared x relative overlap {0, 0.1, 0.25, 0.5} x payload {scalar float64, colour uint16 x3, scalar converted from uint8 by img_as(float), scalar image moved to its origin after use} x frame "
     "{unit voxel, dyadic anisotropic voxel + user origin, Image default dimensions [1,1], non-dyadic voxel + far origin}. Every shape with "
     "1 <= H, W <= 12: all 36 count pairs, all overlaps, scalar x every frame and colour x dyadic frame (thorough: complete payload x frame product). "
     "Extents 13..40: quick = shapes (1,H), (H,1), (H,H) with counts (1,k), (k,1), (k,k), k = 1..6; thorough = every shape up to 40x40 with all 36 count "
@@ -130,8 +132,12 @@ def _base(shape, frame, colour):
 
     h, w = shape
     vs, origin, _ = FRAME[frame]
+    kind = colour
+    colour = kind is True
     if colour:
         data = (np.arange(h * w * 3, dtype=np.uint16) + 1).reshape(h, w, 3)
+    elif kind == "converted":
+        data = ((np.arange(h * w) % 251) + 1).astype(np.uint8).reshape(h, w)
     else:
         data = (np.arange(h * w, dtype=float) + 1.0).reshape(h, w)
     kw = dict(space_dim=2, scalar=not colour)
@@ -145,7 +151,20 @@ def _base(shape, frame, colour):
     else:
         org = origin
         kw["origin"] = list(origin)
+    if kind == "moved":
+        # the image lives at another origin first and is asked for everything that depends on it ...
+        kw0 = dict(kw)
+        kw0["origin"] = [org[0] - 7.0, org[1] + 3.0]
+        img = darsia.Image(data.copy(), **kw0)
+        img.coordinatesystem.coordinate(np.zeros(2, dtype=int)), img.opposite_corner, img.domain
+        darsia.Patches(img, [1, 1])
+        # ... and is then given the frame's origin through the public metadata update
+        img.update_metadata(origin=darsia.Coordinate(np.array(org, dtype=float)))
+        return img, data, dims, org
     img = darsia.Image(data.copy(), **kw)
+    if kind == "converted":
+        img = img.img_as(float)  # keeps original_dtype = uint8; the current data are floats k/255
+        data = img.img.copy()
     return img, data, dims, org
 
 
@@ -183,6 +202,8 @@ def _one(r, shape, n, frame, colour, ov):
         return f"C19/{clause}/{cls}/{frame}"
 
     base, pristine, dims, org = _base(shape, frame, colour)
+    kind, colour = colour, colour is True
+    detail["payload"] = kind if isinstance(kind, str) else ("colour" if kind else "scalar")
     try:
         P = darsia.Patches(base, [n0, n1], rel_overlap=ov)
     except (ValueError, NotImplementedError) as e:
@@ -191,7 +212,7 @@ def _one(r, shape, n, frame, colour, ov):
         return
     r.count("built")
     if n0 * n1 > 1:
-        r.nontriv((shape, n, frame, colour, ov))
+        r.nontriv((shape, n, frame, kind, ov))
 
     # ---- structure of the advertised tables
     ok = (
